@@ -133,9 +133,10 @@ NewStore(c, bad, deadline, cc) ==      \* cc: the cache as the new store finds i
 InitCtxDone == ini.deadline # Nil /\ now >= ini.deadline
 
 \* one Get per stub per round, in any order (map iteration), one at a time
+\* the fetches of one round may be issued one after the other (the pinned code) or several at a time: the round is over
+\* when every missing secret has been tried and every request has come back
 InitReq(n) ==
   /\ phase = "init" /\ m[n] = Stub /\ n \notin ini.tried /\ ini.wake = Nil
-  /\ ReqsBy("init") = {}
   /\ rq' = [rq EXCEPT !["init"][n] = [kind |-> "get", old |-> 0]]
   /\ ini' = [ini EXCEPT !.tried = @ \cup {n}]
   /\ out' = Event("req", [name |-> n, kind |-> "get", old |-> 0])
@@ -160,6 +161,13 @@ InitResp(n, forceErr) ==
           /\ out' = Event("resp", [name |-> n, res |-> "val", ver |-> a.v, ret |-> "none", force |-> forceErr])
           /\ UNCHANGED <<ini, phase, cache>>
   /\ UNCHANGED <<cfg, svc, handles, closed, poll, lk, call, now>>
+
+\* a request of a construction that has already given up comes back: nothing happens
+InitStray(n) ==
+  /\ phase = "failed" /\ rq["init"][n] # Nil
+  /\ rq' = [rq EXCEPT !["init"][n] = Nil]
+  /\ out' = Event("resp", [name |-> n, res |-> "stray", ver |-> 0, ret |-> "none", force |-> FALSE])
+  /\ UNCHANGED <<cfg, svc, m, handles, cache, phase, closed, ini, poll, lk, call, now, hist>>
 
 \* end of a round: done, or (file client) fail, or pause (a positive time, at most MaxPause, never past the caller's deadline)
 InitRoundEnd ==
@@ -212,8 +220,9 @@ Refresh(c, deadline) ==
 NoPollReq == ReqsBy("poll") = {}
 
 \* next name of the round: expired ones are marked for deletion without a request
+\* (the requests of a round may be in flight one at a time, as in the pinned code, or several at once)
 PollStep(n) ==
-  /\ poll # Nil /\ n \in poll.todo /\ NoPollReq
+  /\ poll # Nil /\ n \in poll.todo /\ rq["poll"][n] = Nil
   /\ IF poll.snap[n].expired
      THEN /\ poll' = [poll EXCEPT !.todo = @ \ {n}, !.upd[n] = Del]
           /\ out' = Event("expire", [name |-> n])
@@ -270,6 +279,14 @@ PollFinish ==
   /\ poll' = Nil
   /\ call' = [c \in Callers |-> IF c \in poll.waiters THEN Nil ELSE call[c]]
   /\ UNCHANGED <<cfg, svc, handles, phase, closed, ini, lk, rq, now>>
+
+\* C13 says when the cache MUST be rewritten (after the initial fetch, a lookup, a poll that installed something, at
+\* shutdown); an implementation may also rewrite it at other moments -- always as one complete document of its current state
+ExtraFlush ==
+  /\ phase \in {"init", "running"} /\ Flushes
+  /\ cache' = Flush(m)
+  /\ out' = Event("flush", [ok |-> ~cache.wfail])
+  /\ UNCHANGED <<cfg, svc, m, handles, phase, closed, ini, poll, lk, rq, call, now, hist>>
 
 (* --- handles and reads (C12, C19) ----------------------------------------------------------- *)
 \* Store.Secret(n): a handle for a known name; nil (or a panic without lookups) otherwise
@@ -481,8 +498,9 @@ InstLast == \A n \in Names : IsRec(m[n]) => (hist.inst[n] # <<>> /\ m[n].ver = h
 PollConverges ==
   (poll # Nil /\ poll.todo = {} /\ NoPollReq /\ ~poll.failed) =>
      \A n \in Known(ApplyTo(m)) : (poll.snap[n] # Nil /\ ~poll.snap[n].expired) => ApplyTo(m)[n].ver \in poll.act[n]
-\* C11: at most one request in flight per round, never two rounds
-Coalesce == Cardinality(ReqsBy("poll")) <= 1
+\* C11: never two rounds at once, and within the one round at most one request per secret (a request in flight belongs to
+\* the current round and its secret has not been answered yet); how many secrets are asked for at a time is free
+Coalesce == \A n \in Names : rq["poll"][n] # Nil => (poll # Nil /\ n \in poll.todo)
 
 \* C13: unless a cache write failed, after every installing step the cache document lists exactly the
 \* known secrets with their installed versions (access stamps are refreshed only by the next write)
